@@ -89,7 +89,8 @@ TEXT = {
                  "returns Ok or Err, never panics (parse_total, incl. strict); lenient: Ok iff well-formed "
                  "(parse_ok_iff) with the denoted value (parse_value); InvalidStringLength iff the length is wrong "
                  "(parse_err_length); other errors only when they apply (parse_err_applicable). Correspondence: "
-                 "position x 256-byte-value sweeps and structured malformations in six decoder configurations.",
+                 "position x 256-byte-value sweeps and structured malformations in six decoder configurations, and "
+                 "in the dev profile (overflow checks on: arithmetic on a prefix or digit byte must not panic).",
         "note": COMMON_NOTE + " hex-simd by contract.",
         "technique": "Lean 4 proof (parser = spec parser, per-digit kernel decide) + exhaustive position/byte sweeps",
     },
@@ -138,7 +139,9 @@ TEXT = {
                  "(compare_with_match); at the reference constants it never panics, returns the reference distance "
                  "of the two parsed hashes when both parse, otherwise blames the first failing side with the "
                  "parser's error (compare_with_spec); accepted operands with equal upper-cased digits are "
-                 "interchangeable, with or without prefix (compare_case_prefix_insensitive).",
+                 "interchangeable, with or without prefix (compare_case_prefix_insensitive); end to end, the helper "
+                 "on the canonical texts of any two well-formed hashes, prefixed or not per side, is their "
+                 "reference distance and is symmetric (compare_formatted, compare_formatted_symm).",
         "note": COMMON_NOTE,
         "technique": "Lean 4 proof composing the parser (C04/C05) and distance (C02) theorems + differential replay",
     },
